@@ -85,8 +85,9 @@ META = dict(
     outside=['float round-off (doubles modelled as reals; where dadi itself forms float constants such as 1./arange '
              'or arange/n the claim is |code-ref| <= 2^-40 * total mass)',
              'gzip/zip containers and flanking_info / calc_coverage / extract_ploidy options of make_data_dict_vcf',
-             'Misc.make_data_dict (SNP text format), dd_from_SLiM_files, bootstraps_subsample_vcf (composition of the '
-             'checked parts with unscripted randomness)',
+             'Misc.make_data_dict (SNP text format), dd_from_SLiM_files; bootstraps_subsample_vcf only as a composition '
+             '(diploid VCF units with a subsample: one replicate with the chunk resampling scripted to "every chunk once" '
+             'equals the spectrum of the subsampled data, populations requested in reverse order)',
              'the random number streams themselves (numpy.random.choice / random.choices are scripted: the claim is '
              'for every possible outcome of the draw)',
              'sample sizes > 16 chromosomes (statistics), > 8 (projection), > 5 diploids per population (VCF)',
@@ -917,6 +918,25 @@ def make_vcf_body(layout, alphabet, fmt, filt, subsample, nsel):
                 with warnings.catch_warnings():
                     warnings.simplefilter('ignore')
                     dd = Misc.make_data_dict_vcf(vcf, popf, subsample=subsample, filter=filt)
+                    boot_got = None
+                    if subsample is not None and len(gt_alleles(alphabet[0])) == 2:
+                        # bootstraps_subsample_vcf = subsample + chunk + resample chunks: with the chunk resampling
+                        # scripted to "every chunk once" one replicate is the spectrum of the subsampled data itself;
+                        # populations requested in an order different from the subsample dictionary's
+                        bpops = [p_ for p_ in pops if p_ in subsample][::-1]
+
+                        class _IdRandom:
+                            @staticmethod
+                            def choices(seq, k=None, **kw):
+                                return list(seq)
+                        oldr = Misc.random
+                        Misc.random = _IdRandom
+                        try:
+                            boot_got = [Misc.bootstraps_subsample_vcf(vcf, popf, subsample, 1, 7, list(bpops), filter=filt,
+                                                                      mask_corners=mc_, polarized=pol_)[0]
+                                        for pol_, mc_ in ((True, True), (False, False))]
+                        finally:
+                            Misc.random = oldr
             finally:
                 Misc.numpy = old
         finally:
@@ -981,6 +1001,19 @@ def make_vcf_body(layout, alphabet, fmt, filt, subsample, nsel):
             # every draw asked for exactly the requested number out of the fully called individuals
             env.holds('subsample-draws', len(draws) > 0 and all(sz in subsample.values() and len(sel) == sz and n >= sz
                                                                 for n, sz, sel in draws))
+        if subsample is not None and len(gt_alleles(alphabet[0])) == 2:
+            env.holds('bootstraps_subsample_vcf ran', boot_got is not None and len(boot_got) == 2)
+            _f = lambda a_: np.array([float(v_.c) if isinstance(v_, S.Sym) else float(v_) for v_ in np.ma.getdata(a_).flat], dtype=float)
+            for bfs, (pol_, mc_) in zip(boot_got or [], ((True, True), (False, False))):
+                want = dadi.Spectrum.from_data_dict(dd, list(bpops), [2 * subsample[p_] for p_ in bpops],
+                                                    mask_corners=mc_, polarized=pol_)
+                tagb = 'bootstraps_subsample_vcf pol=%d order=%s' % (pol_, ''.join(bpops))
+                okb = (tuple(bfs.shape) == tuple(want.shape) and list(bfs.pop_ids) == list(bpops)
+                       and bool(bfs.folded) == (not pol_)
+                       and np.array_equal(np.ma.getmaskarray(bfs), np.ma.getmaskarray(want))
+                       and np.allclose(_f(bfs), _f(want), rtol=1e-12, atol=1e-12))
+                env.holds('%s shape %s total %r (want %s, %r)' % (tagb, tuple(bfs.shape), float(_f(bfs).sum()),
+                                                                 tuple(want.shape), float(_f(want).sum())), okb)
         # chunking the VCF-derived dictionary (chromosome names with '_' and '.') partitions its SNPs
         for chunk in (7, 1000):
             frags = Misc.fragment_data_dict(dd, chunk)
@@ -1086,6 +1119,7 @@ def units(tier, seed):
     for nsel in range(3):
         vc.append((lay3, dip, 'GT', True, {'A': 1, 'B': 1}, nsel))
         vc.append((lay3, dip, 'GQ:GT:PL', True, {'A': 2}, nsel))
+    vc.append((lay3, dip, 'GT', True, {'A': 2, 'B': 1}, 1))      # unequal sizes (bootstrap projections per population)
     if thorough:
         hap = ['0', '1', '.']
         tri = ['0/0/1', '1|1|1', '././.', '0/1/0']
